@@ -449,6 +449,8 @@ type Contract struct {
 	File       string
 	Line       int
 	Pragmas    []string
+	TracedArg  SExpr // traced callees: the key argument recorded in the caller's activation trace
+	TracedRes  SExpr // ... and the result recorded after the call
 	DefaultInv []Clause // invariants for every loop that has no explicit loop clause
 	Captures   []Clause // closures: facts about the captured variables (checked where the closure is created)
 	Likes      []string // templates: contracts whose clauses are copied into this one
@@ -588,6 +590,24 @@ func loadSpecFile(path string, sf *SpecFile) error {
 				return fail(fmt.Errorf("props outside func"))
 			}
 			cur.Props = strings.Fields(rest)
+		case "traced":
+			// traced ARGEXPR [-> RESEXPR]
+			if cur == nil {
+				return fail(fmt.Errorf("traced outside func"))
+			}
+			parts := strings.SplitN(rest, "->", 2)
+			a, err := parseSpecExpr(strings.TrimSpace(parts[0]))
+			if err != nil {
+				return fail(err)
+			}
+			cur.TracedArg = a
+			if len(parts) == 2 {
+				r, err := parseSpecExpr(strings.TrimSpace(parts[1]))
+				if err != nil {
+					return fail(err)
+				}
+				cur.TracedRes = r
+			}
 		case "loops":
 			if cur == nil {
 				return fail(fmt.Errorf("loops outside func"))
